@@ -133,3 +133,36 @@ def d74_frame_reduction_divisions_after_optimize(case, rec):
         return ops.kind_of(pv[step["in"][0]]) == "frame" and ops.kind_of(pv[vid]) in ("series", "frame")
     except Exception:
         return False
+
+
+def d100_repartition_of_sorted_empty_frame(case, rec):
+    """C06: x = <frame without rows>.sort_values(...).repartition(npartitions=n); the partition count reported by x and by collections
+    derived from it is the one of the *optimized* repartition (the sort of an empty frame has one output partition), while a derived query
+    whose own optimized plan keeps the repartition above the sort computes n partitions."""
+    if rec.get("kind") not in ("npartitions-mismatch", "divisions-length") or not isinstance(case, dict) or "steps" not in case:
+        return False
+    try:
+        from . import interp
+
+        pv = interp.run_pandas(case)
+    except Exception:
+        return False
+    by_id = {s["id"]: s for s in case["steps"]}
+
+    def upstream(vid, seen=()):
+        s = by_id.get(vid)
+        if s is None:
+            return []
+        out = [s]
+        for i in s["in"]:
+            out += upstream(i)
+        return out
+
+    vid = rec.get("value")
+    chain = upstream(vid)
+    for s in chain:
+        if s["op"] == "repartition":
+            src = upstream(s["in"][0])
+            if any(t["op"] in ("sort_values", "set_index") for t in src) and hasattr(pv.get(s["in"][0]), "__len__") and len(pv[s["in"][0]]) == 0:
+                return True
+    return False
